@@ -233,6 +233,12 @@ def check(acc, kind, term, root_kind, backends=BACKENDS):
             acc.violation("harness:%s" % type(e).__name__, {"filter": to_odata(term), "backend": b, "error": repr(e)[:200]})
             continue
         acc.outcome((b, out.split(":")[0], out.split(":")[-1] if out != "complete" else ""))
+        # pinned capability (Appendix A): no translating backend implements a namespaced function (geo.* needs GeoDjango, which
+        # is absent; custom namespaces are the caller's own) - a "translation" of one is a mis-mapping onto a built-in
+        if out == "complete" and b != "roundtrip" and any(st[0] == "Call" and st[1][2] != ("()",) for st in T.subterms(term)):
+            acc.violation("%s:translated-namespaced-function:%s" % (b, kind), {"filter": to_odata(term), "backend": b, "kind": kind, "root": root_kind,
+                                                                            "outcome": "complete", "detail": detail, "expected": "refusal"})
+            continue
         if out == "complete" or out.startswith("lib:") or out.startswith("documented:"):
             continue
         finding = None
@@ -361,5 +367,7 @@ def replay(ctx, case):
         unknown_fields(acc)
         return {"violations": acc.violations, "ok": not acc.violations}
     out, detail = run_backend(case["backend"], case.get("kind", "typed"), term, case.get("root", "scalar"))
-    return {"filter": case["filter"], "backend": case["backend"], "outcome": out, "detail": detail,
-            "ok": out == "complete" or out.startswith("lib:") or out.startswith("documented:")}
+    ok = out == "complete" or out.startswith("lib:") or out.startswith("documented:")
+    if case.get("expected") == "refusal":
+        ok = out != "complete"
+    return {"filter": case["filter"], "backend": case["backend"], "outcome": out, "detail": detail, "ok": ok}
